@@ -314,6 +314,30 @@ func TestVerifC10(t *testing.T) {
 				if len(combo) > 0 {
 					r.Nontrivial(fmt.Sprintf("%d|%s|%s", bi, form, desc))
 				}
+				// (1b) the same received object used again (a receiver that retries, or verifies and then
+				// applies): the verdict must not change because of state left behind by the first use
+				for attempt := 2; attempt <= 3; attempt++ {
+					r.Eval()
+					var err2 error
+					if pan, _ := vkit.Guard(func() { _, err2 = u1.Verify(pk) }); pan {
+						break
+					}
+					if err2 == nil && auth == nil {
+						r.Violate("C10|Update.Verify-accepted-unauthentic-on-reuse|"+class, fmt.Sprintf("base %d (%s), %s: attempt %d on the same message object accepted although %s", bi, form, desc, attempt, why), rep)
+						break
+					}
+				}
+				if len(base.Events) > 0 && bs.a >= 1 {
+					r.Eval()
+					w := world.Witness(bs.a-1, rvPrime(0))
+					before := rvSnapshot(w)
+					var uerr error
+					if pan, _ := vkit.Guard(func() { uerr = w.Update(pk, u1) }); !pan {
+						if changed := !before.Equal(rvSnapshot(w)); changed && auth == nil && uerr == nil {
+							r.Violate("C10|Witness.Update-accepted-unauthentic-on-reuse|"+class, fmt.Sprintf("base %d (%s), %s: witness advanced by a message object that had been rejected before (%s)", bi, form, desc, why), rep)
+						}
+					}
+				}
 				// (2) Witness.Update on a witness positioned just before the first event
 				if len(base.Events) > 0 && bs.a >= 1 {
 					r.Eval()
